@@ -31,7 +31,6 @@ CONSTANTS MaxK, PVals, MVals, Emit,
 
 Modes  == {"NUMBER", "NUMBER_FRACTION", "MASS_FRACTION"}
 Scales == {<<2, 1>>, <<1, 2>>, <<5, 3>>}
-IStr(i) == ToString(i)
 
 ---------------------------------------------------------------------------
 \* ideal
@@ -65,8 +64,6 @@ MachX(mode, ps, ms, mut) ==
 
 ---------------------------------------------------------------------------
 \* observation environment of one object named nm
-RECURSIVE EnvSeq(_, _, _)
-EnvSeq(prefix, vals, i) == IF i > Len(vals) THEN <<>> ELSE ((prefix \o IStr(i)) :> vals[i]) @@ EnvSeq(prefix, vals, i + 1)
 ObjEnv(nm, ps, ms, fr) ==
      EnvSeq("obs:" \o nm \o ".m.", ms, 1)
   @@ EnvSeq("obs:" \o nm \o ".x.", fr.x, 1) @@ EnvSeq("obs:" \o nm \o ".X.", fr.X, 1)
